@@ -99,6 +99,8 @@ pub enum SOp {
     CallBurst { name: usize, ctx: usize, n: usize },
     Tick { ms: u64 },
     Restart { crash: bool },
+    /// a crash that strikes right after the operator appended one more frame (nothing has reacted yet)
+    CrashAfter { what: usize, name: usize, ctx: usize },
     Quiesce,
 }
 
@@ -319,6 +321,7 @@ struct Run {
     restarts: usize,
     /// log position of the last restart (frames before it were produced by an earlier incarnation)
     last_restart_pos: usize,
+    restart_positions: Vec<usize>,
 }
 
 thread_local! {
@@ -384,6 +387,7 @@ impl Run {
             cas_watch_fail,
             restarts: 0,
             last_restart_pos: 0,
+            restart_positions: Vec::new(),
         };
         r.install_cas_watch();
         r.attach_follower()?;
@@ -657,8 +661,85 @@ impl Run {
                 self.quiesce(chooser, vec![])?;
             }
             SOp::Quiesce => self.quiesce(chooser, vec![])?,
+            SOp::Restart { crash } => self.restart(chooser, *crash)?,
+            SOp::CrashAfter { what, name, ctx } => {
+                let c = self.ctx(*ctx);
+                match what % 3 {
+                    0 => {
+                        let n = HNAMES[name % HNAMES.len()];
+                        self.op_append(Frame::builder(format!("{}.unregister", n), c).build())?;
+                        if self.active.remove(&(c, n.to_string())).is_some() {
+                            self.w.probe("restart:crash-after-unregister");
+                        }
+                    }
+                    1 => {
+                        let f = self.op_append(Frame::builder(format!("trig.{}", i), c).meta(serde_json::json!({"fail": false, "op": i})).build())?;
+                        self.triggers.push((f.id, c, false));
+                    }
+                    _ => {
+                        let n = CNAMES[name % CNAMES.len()];
+                        self.do_call(n, c, 7)?;
+                        // the server goes down before it can answer: the call stays unanswered
+                        if let Some(last) = self.calls.last_mut() {
+                            last.foreign_def = true;
+                            last.def = None;
+                        }
+                    }
+                }
+                self.restart(chooser, true)?;
+            }
             _ => {}
         }
+        Ok(())
+    }
+
+    /// Stop the server (cleanly at quiescence, or by a crash in the middle of whatever is going
+    /// on) and start it again on the same store: byte copy of the directory, new runtime, new
+    /// serve loops. Threads of the old incarnation run free against the old directory.
+    fn restart(&mut self, chooser: &mut Chooser, crash: bool) -> R<()> {
+        if crash {
+            // a few more steps of whatever is pending, then the lights go out
+            let steps = chooser.rng.below(6);
+            for _ in 0..steps {
+                self.drain_log();
+                if let Picked::Nothing = self.w.decide(chooser, &[], &|e| e.actor_kind != "gc")? {
+                    break;
+                }
+            }
+            self.w.probe("restart:crash");
+        } else {
+            self.quiesce(chooser, vec![])?;
+            self.w.probe("restart:clean");
+        }
+        self.drain_log();
+        self.gen += 1;
+        let newp = self.w.dir.join(format!("s{}", self.gen));
+        crate::e3::copy_dir_stable(&self.path, &newp).map_err(Stop::Harness)?;
+        // the old incarnation dies
+        self.follower = None;
+        self.w.ctrl.new_generation();
+        self.w.replace_runtime();
+        let old = std::mem::replace(&mut self.store, self.w.open_store(&newp)?);
+        old.verif_shutdown();
+        let oldp = std::mem::replace(&mut self.path, newp);
+        std::thread::spawn(move || {
+            drop(old);
+            let _ = std::fs::remove_dir_all(oldp);
+        });
+        self.install_cas_watch();
+        // frames that were stored but not yet forwarded to the log follower
+        let known: std::collections::HashSet<Scru128Id> = self.log.iter().map(|f| f.id).collect();
+        let missing: Vec<Frame> = self.store.read_sync(None, None, None).filter(|f| !known.contains(&f.id)).collect();
+        for f in missing {
+            self.log.push(f);
+        }
+        self.log.sort_by_key(|f| f.id);
+        self.restarts += 1;
+        self.restart_positions.push(self.log.len());
+        self.last_restart_pos = self.log.len();
+        self.attach_follower()?;
+        self.start_services();
+        self.quiesce(chooser, vec![])?;
         Ok(())
     }
 
@@ -1017,6 +1098,109 @@ impl Run {
         None
     }
 
+    /// C17: what is active after each restart is exactly what the stream said was active before it.
+    fn check_restarts(&mut self) -> R<()> {
+        let log = self.log.clone();
+        for (ri, &p) in self.restart_positions.clone().iter().enumerate() {
+            let end = self.restart_positions.get(ri + 1).copied().unwrap_or(log.len());
+            let before = &log[..p];
+            let after = &log[p..end];
+            // ---- handlers
+            let mut keys: Vec<(Scru128Id, String)> = Vec::new();
+            for inst in &self.instances {
+                let k = (inst.ctx, inst.name.clone());
+                if !keys.contains(&k) {
+                    keys.push(k);
+                }
+            }
+            for (c, name) in keys {
+                let last_reg = before.iter().rposition(|f| f.context_id == c && f.topic == format!("{}.register", name));
+                let Some(rp) = last_reg else { continue };
+                let r = &before[rp];
+                let Some(inst) = self.instances.iter().find(|x| x.id == r.id).cloned() else { continue };
+                let hid = r.id.to_string();
+                let unregister_later = before[rp + 1..].iter().any(|f| f.context_id == c && f.topic == format!("{}.unregister", name));
+                let unregistered = before.iter().any(|f| f.topic == format!("{}.unregistered", name) && Self::meta_str(f, "handler_id").as_deref() == Some(&hid));
+                let should_be_active = inst.valid && !unregister_later && !unregistered;
+                let reannounced = after.iter().any(|f| f.topic == format!("{}.registered", name) && Self::meta_str(f, "handler_id").as_deref() == Some(&hid));
+                let desc = format!("restart #{}: handler {} in context {} (register {})", ri + 1, name, short_ctx(&c), r.id);
+                if should_be_active && !reannounced {
+                    return violation("restart/handler-lost", format!("{} was active when the server stopped but was not started again", desc));
+                }
+                if !should_be_active && reannounced {
+                    let why = if !inst.valid {
+                        "its script is invalid"
+                    } else if unregister_later {
+                        "a later <name>.unregister is in the stream"
+                    } else {
+                        "it had stopped (<name>.unregistered)"
+                    };
+                    return violation("restart/handler-resurrected", format!("{} came back after the restart although {}", desc, why));
+                }
+                self.w.probe(if should_be_active { "restart:handler-restored" } else { "restart:handler-stays-stopped" });
+                // earlier instances of the pair never come back
+                for old in self.instances.iter().filter(|x| x.ctx == c && x.name == name && x.id != r.id) {
+                    if pos_in(before, &old.id).is_some() && after.iter().any(|f| f.topic == format!("{}.registered", name) && Self::meta_str(f, "handler_id").as_deref() == Some(&old.id.to_string())) {
+                        return violation("restart/handler-resurrected", format!("restart #{}: replaced handler {} (register {}) came back", ri + 1, name, old.id));
+                    }
+                }
+            }
+            // historical triggers are not re-executed by tail handlers
+            for inst in &self.instances {
+                if inst.script.resume != Resume::Tail {
+                    continue;
+                }
+                let hid = inst.id.to_string();
+                for f in after {
+                    if Self::meta_str(f, "handler_id").as_deref() != Some(&hid) || f.topic.ends_with(".registered") || f.topic.ends_with(".unregistered") {
+                        continue;
+                    }
+                    if let Some(t) = Self::meta_str(f, "frame_id") {
+                        if before.iter().any(|b| b.id.to_string() == t) {
+                            return violation("restart/trigger-re-executed", format!("restart #{}: tail handler {} answered the historical frame {} again with {}", ri + 1, inst.name, t, fmt_frame(f)));
+                        }
+                    }
+                }
+            }
+            // ---- generators: the accepted spawn of each (context, name) is started again
+            for g in self.gens.clone() {
+                if pos_in(before, &g.id).is_none() {
+                    continue;
+                }
+                let sid = g.id.to_string();
+                let started_before = before.iter().any(|f| f.topic == format!("{}.start", g.name) && Self::meta_str(f, "source_id").as_deref() == Some(&sid));
+                let started_after = after.iter().any(|f| f.topic == format!("{}.start", g.name) && Self::meta_str(f, "source_id").as_deref() == Some(&sid));
+                let refused = before.iter().any(|f| f.topic == format!("{}.spawn.error", g.name) && Self::meta_str(f, "source_id").as_deref() == Some(&sid));
+                let desc = format!("restart #{}: generator {} in context {} (spawn {})", ri + 1, g.name, short_ctx(&g.ctx), g.id);
+                if started_before && !refused {
+                    if !started_after {
+                        return violation("restart/generator-lost", format!("{} was running when the server stopped but was not started again", desc));
+                    }
+                    self.w.probe("restart:generator-restored");
+                }
+                if refused && started_after {
+                    return violation("restart/generator-resurrected", format!("{} had been refused but was started after the restart", desc));
+                }
+            }
+            // ---- commands: historical calls are not executed again
+            for call in &self.calls {
+                if pos_in(before, &call.id).is_none() {
+                    continue;
+                }
+                let cid = call.id.to_string();
+                let answered_before = before.iter().any(|f| Self::meta_str(f, "frame_id").as_deref() == Some(&cid) && Self::meta_str(f, "command_id").is_some());
+                if let Some(f) = after.iter().find(|f| Self::meta_str(f, "frame_id").as_deref() == Some(&cid) && Self::meta_str(f, "command_id").is_some()) {
+                    return violation(
+                        "restart/call-re-executed",
+                        format!("restart #{}: call {} of {} ({}) produced {} after the restart", ri + 1, call.id, call.name, if answered_before { "already answered before it" } else { "not yet answered when the server stopped" }, fmt_frame(f)),
+                    );
+                }
+            }
+            self.w.probe("restart:checked");
+        }
+        Ok(())
+    }
+
     fn check_generators(&mut self) -> R<()> {
         let log = self.log.clone();
         for g in self.gens.clone() {
@@ -1152,7 +1336,8 @@ impl Run {
         for d in self.defs.clone() {
             if d.cmd.invalid {
                 let reported = log.iter().filter(|f| f.topic == format!("{}.error", d.name) && Self::meta_str(f, "command_id").as_deref() == Some(&d.id.to_string())).count();
-                if reported != 1 {
+                // (a restart replays the definitions and reports the invalid one again)
+                if reported < 1 || (reported != 1 && self.restart_positions.is_empty()) {
                     return violation("cmd/invalid-define-not-reported", format!("invalid definition {} of {} produced {} {}.error frames", d.id, d.name, reported, d.name));
                 }
                 self.w.probe("cmd:invalid-reported");
@@ -1261,11 +1446,18 @@ impl Run {
             self.apply(i, op, chooser)?;
         }
         self.quiesce(chooser, vec![])?;
-        self.check_handlers()?;
-        self.check_generators()?;
+        self.check_restarts()?;
+        if self.restart_positions.is_empty() {
+            self.check_handlers()?;
+            self.check_generators()?;
+        }
         self.check_commands()?;
         Ok(())
     }
+}
+
+fn pos_in(frames: &[Frame], id: &Scru128Id) -> Option<usize> {
+    frames.iter().position(|f| f.id == *id)
 }
 
 fn short(op: &SOp) -> String {
@@ -1351,7 +1543,7 @@ pub fn generate(seed: u64, prop: &str, thorough: bool) -> Plan {
             let k = match prop {
                 "C18" => rng.weighted(&[40, 25, 0, 0, 0, 22, 5, 4, 4]),
                 "C19" => rng.weighted(&[0, 0, 28, 40, 10, 2, 6, 7, 7]),
-                _ => rng.weighted(&[14, 6, 12, 16, 4, 8, 14, 14, 12]),
+                _ => rng.weighted(&[14, 6, 12, 16, 4, 8, 14, 14, 6, 8]),
             };
             let op = match k {
                 0 => SOp::SpawnGen {
@@ -1399,13 +1591,31 @@ pub fn generate(seed: u64, prop: &str, thorough: bool) -> Plan {
                 5 => SOp::Tick { ms: 1000 },
                 6 => SOp::Trigger { ctx: rng.below(nctx + 1), fail: rng.chance(15), eph: false },
                 7 => SOp::RegHandler { name: rng.below(2), ctx: rng.below(nctx + 1), script: gen_hscript(&mut rng, "C17"), watched: false },
+                9 => SOp::Unreg { name: rng.below(2), ctx: rng.below(nctx + 1) },
                 _ => SOp::Foreign { ctx: rng.below(nctx + 1) },
             };
             let op = match op {
                 SOp::SpawnGen { name, ctx, gen: GScript::Echo, .. } => SOp::SpawnGen { name, ctx, gen: GScript::Echo, duplex: true },
                 o => o,
             };
+            let is_stop = matches!(op, SOp::Unreg { .. });
             ops.push(op);
+            let _ = is_stop;
+            if prop == "C17" && rng.chance(12) {
+                // crash right after a stop request / trigger / call: nothing has answered it yet
+                ops.push(SOp::CrashAfter { what: rng.below(3), name: rng.below(2), ctx: rng.below(nctx + 1) });
+            } else if prop == "C17" && rng.chance(12) {
+                ops.push(SOp::Restart { crash: rng.chance(50) });
+            }
+        }
+        if prop == "C17" {
+            ops.push(SOp::Restart { crash: rng.chance(40) });
+            for c in 0..=nctx {
+                for nm in 0..2 {
+                    ops.push(SOp::Call { name: nm, ctx: c, arg: 99 });
+                }
+            }
+            ops.push(SOp::Tick { ms: 1000 });
         }
     }
     for _ in 0..(if prop == "C18" || prop == "C19" || prop == "C17" { 0 } else { n }) {
